@@ -14,6 +14,9 @@ func genRace(r *Rng, prop string) *Scenario {
 	if prop == "C17" {
 		return genRaceC17(r, sc)
 	}
+	if prop == "C16" {
+		return genRaceC16(r, sc)
+	}
 	kind := r.weighted(3, 5, 2)
 	if prop == "C15" {
 		kind = 0
@@ -291,6 +294,67 @@ func genRaceC17(r *Rng, sc *Scenario) *Scenario {
 		}
 		sc.Script = append(sc.Script, Out{Conn: k + 1, AtUs: t, Kind: "pkt", Pkt: p})
 		t += 500
+	}
+	sc.HorizonUs, sc.EndUs = t+2000, t+4000
+	return sc
+}
+
+// genRaceC16: several BaseClients, each with a connection of its own, whose
+// endings race under real parallelism: Disconnect, local Close, peer EOF /
+// reset and a malformed packet released at the same instant.
+func genRaceC16(r *Rng, sc *Scenario) *Scenario {
+	cfg := &sc.Cfg
+	cfg.Client = "base"
+	cfg.InitIDs = []uint32{0}
+	n := int(r.between(3, 8))
+	t := int64(0)
+	for c := 0; c < n; c++ {
+		sc.Ops = append(sc.Ops, Op{AtUs: t, Actor: 10 + c, Kind: "connect", Cli: c, Token: fmt.Sprintf("-%d", c)})
+		t += 20
+	}
+	t += 400
+	for c := 0; c < n; c++ {
+		conn := c + 1
+		// two or three endings at once
+		ends := []string{"disconnect"}
+		switch r.IntN(4) {
+		case 0:
+			ends = append(ends, "peereof")
+		case 1:
+			ends = append(ends, "peerreset")
+		case 2:
+			ends = append(ends, "localclose")
+		case 3:
+			ends = append(ends, "malformed")
+		}
+		if r.chance(0.3) {
+			ends = append(ends, r.pick("peereof", "localclose"))
+		}
+		if r.chance(0.2) {
+			ends = ends[1:] // without Disconnect: Closed must carry the error Err() keeps
+		}
+		for j, e := range ends {
+			at := t
+			// the application's action lands while the reader is on its way through
+			// the end of the connection: some microseconds of real time later
+			spin := int64(0)
+			if r.chance(0.7) {
+				spin = r.between(1, 60)
+			}
+			switch e {
+			case "disconnect":
+				sc.Ops = append(sc.Ops, Op{AtUs: at, Actor: 40 + c, Kind: "disconnect", Cli: c, SpinUs: spin})
+			case "localclose":
+				sc.Ops = append(sc.Ops, Op{AtUs: at, Actor: 60 + c*4 + j, Kind: "close", Cli: c, SpinUs: spin})
+			case "peereof":
+				sc.Faults = append(sc.Faults, Fault{Kind: "cutAt", Conn: conn, AtUs: at})
+			case "peerreset":
+				sc.Faults = append(sc.Faults, Fault{Kind: "cutAt", Conn: conn, AtUs: at, Reset: true})
+			case "malformed":
+				sc.Script = append(sc.Script, Out{Conn: conn, AtUs: at, Kind: "raw", RawHex: hx(0xf0, 0), Class: "malformed"})
+			}
+		}
+		t += int64(r.between(0, 30))
 	}
 	sc.HorizonUs, sc.EndUs = t+2000, t+4000
 	return sc
